@@ -15,6 +15,7 @@ import Props.C17
 import Props.C20
 import TextwrapModel.Indent
 import Lemmas.Smawk
+import Lemmas.OptimalBound
 namespace TW.C04
 
 /-! ### entry points without any panic site (total by construction) -/
@@ -191,6 +192,34 @@ theorem wrap_total_own (env : Env) (pen : Penalties) (o : Opts) (hb : Builtin o.
     (∃ ls, wrap env (ownMinima (α := Int) pen) o text = some ls) ∧
     (∃ s, fill env (ownMinima (α := Int) pen) o text = some s) :=
   wrap_total env _ (ownMinima_moShape pen) o hb hsep text
+
+/-! ### no `OverflowError` for usize-valued inputs: the exact-arithmetic half
+
+`Lemmas/SmawkOnline.lean` (`onlineColumnMinima_bounded`): for ANY matrix whose entries are the
+row's value plus an increment in `[0, K]` — no monotonicity — every value `online_column_minima`
+stores lies in `[init, init + j·K]`. `Lemmas/OptimalBound.lean` (`costClosure_bounded`): with all
+fragment widths, whitespace widths, penalty widths, line widths (any number of them) and
+penalties in `[0, U]`, the closure of `wrap_optimal_fit` is such a matrix with
+`K = 2U + (2n+1)·U²`. For `U = 2^64`: -/
+
+-- @audit TW.onlineColumnMinima_bounded
+-- @audit TW.optimalFit_costs_bounded
+
+/-- **usize-valued inputs**: every cost the model's own `smawk` stores is an integer in
+    `[0, j·(2^65 + (2n+1)·2^128)]` — for `n < 2^64` fragments below `2^260`, against an `f64`
+    range of `≈ 2^1024`. What remains assumed for the real code: the `f64` computation of a value
+    whose exact counterpart is that small stays finite (DESIGN §5.4). -/
+-- @audit TW.C04.optimalFit_costs_usize
+theorem optimalFit_costs_usize (pen : Penalties) (lws : List Int) (frs : List (Frag Int))
+    (hf : ∀ f ∈ frs, 0 ≤ f.w ∧ f.w ≤ 2 ^ 64 ∧ 0 ≤ f.ws ∧ f.ws ≤ 2 ^ 64 ∧ 0 ≤ f.pen ∧ f.pen ≤ 2 ^ 64)
+    (hl : ∀ lw ∈ lws, 0 ≤ lw ∧ lw ≤ 2 ^ 64)
+    (hp : (pen.nline : Int) ≤ 2 ^ 64 ∧ (pen.overflow : Int) ≤ 2 ^ 64 ∧ (pen.shortPen : Int) ≤ 2 ^ 64 ∧
+      (pen.hyphen : Int) ≤ 2 ^ 64) :
+    ∃ res, onlineColumnMinima (costClosure pen lws frs (prefixWidths frs)) 0 (frs.length + 1) = some res ∧
+      res.length = frs.length + 1 ∧
+      ∀ j, j ≤ frs.length → 0 ≤ Dof res j ∧
+        Dof res j ≤ (j : Int) * (2 * 2 ^ 64 + (2 * (frs.length : Int) + 1) * 2 ^ 64 * 2 ^ 64) :=
+  optimalFit_costs_bounded pen lws frs (2 ^ 64) (by decide) hf hl hp
 
 -- **`fill_inplace`** (re-export of C17)
 -- @audit TW.C17.inplace_total
